@@ -127,6 +127,26 @@ Proof.
   - apply accept_list_lookup.
 Qed.
 
+(* a byte with the high bit set is not an ASCII letter, whatever its low seven bits are:
+   asciiToLower leaves it alone, no accepted text contains one, so a text containing one names no level *)
+Definition high_bit (b : byte) : bool := 128 <=? Z_of_byte b.
+Lemma lower_byte_high b : high_bit (lower_byte b) = high_bit b.
+Proof. destruct b; reflexivity. Qed.
+Lemma ascii_lower_high t : existsb high_bit (ascii_lower t) = existsb high_bit t.
+Proof.
+  unfold ascii_lower. induction t as [|b t IH]; [reflexivity|].
+  cbn [map existsb]. rewrite lower_byte_high, IH. reflexivity.
+Qed.
+Lemma accept_list_ascii : forallb (fun '(k, _) => negb (existsb high_bit k)) accept_list = true.
+Proof. vm_compute. reflexivity. Qed.
+Theorem spec_parse_high_bit t : existsb high_bit t = true -> spec_parse t = None.
+Proof.
+  intros H. destruct (spec_parse t) as [l|] eqn:E; [|reflexivity].
+  apply spec_parse_exact in E.
+  pose proof accept_list_ascii as HA. rewrite forallb_forall in HA.
+  specialize (HA _ E). cbn beta iota in HA. rewrite ascii_lower_high, H in HA. discriminate.
+Qed.
+
 Lemma spec_parse_valid t l : spec_parse t = Some l -> valid_level l = true.
 Proof. intros H. apply spec_parse_exact, accept_list_lower in H. tauto. Qed.
 
@@ -467,6 +487,13 @@ Theorem reject_unchanged_thm tgt t l ok :
 Proof.
   rewrite unmarshal_text_spec. unfold spec_result.
   destruct (spec_parse t); intros [= <- <-] Hok; [discriminate|auto].
+Qed.
+
+Theorem high_bit_rejected_thm tgt t : existsb high_bit t = true ->
+  level_unmarshal_text d tgt t = (tgt, false).
+Proof.
+  intros H. rewrite unmarshal_text_spec. unfold spec_result.
+  rewrite (spec_parse_high_bit _ H). reflexivity.
 Qed.
 
 Theorem empty_info_thm tgt : level_unmarshal_text d tgt [] = (0, true).
